@@ -6,7 +6,12 @@ use super::*;
 use crate::builders::fakes::{fake_bootstrap_witness, fake_raw_key_public, fake_raw_key_sig};
 use crate::fees;
 use crate::utils;
+#[cfg(not(feature = "verif-hooks"))]
 use std::collections::{BTreeMap, BTreeSet, HashMap, HashSet};
+#[cfg(feature = "verif-hooks")]
+use std::collections::{BTreeMap, BTreeSet};
+#[cfg(feature = "verif-hooks")]
+use crate::verif_hooks::{HashMap, HashSet, NewExt};
 
 fn count_needed_vkeys(tx_builder: &TransactionBuilder) -> usize {
     let mut input_hashes: Ed25519KeyHashes = Ed25519KeyHashes::from(&tx_builder.inputs);
@@ -472,7 +477,10 @@ impl TransactionBuilder {
                     return Err(JsError::from_str("Multiasset values not supported by RandomImprove. Please use RandomImproveMultiAsset"));
                 }
                 use rand::Rng;
+                #[cfg(not(feature = "verif-hooks"))]
                 let mut rng = rand::thread_rng();
+                #[cfg(feature = "verif-hooks")]
+                let mut rng = crate::verif_hooks::ChoiceRng::new();
                 let mut available_indices =
                     (0..available_inputs.len()).collect::<BTreeSet<usize>>();
                 self.cip2_random_improve_by(
@@ -535,7 +543,10 @@ impl TransactionBuilder {
             }
             CoinSelectionStrategyCIP2::RandomImproveMultiAsset => {
                 use rand::Rng;
+                #[cfg(not(feature = "verif-hooks"))]
                 let mut rng = rand::thread_rng();
+                #[cfg(feature = "verif-hooks")]
+                let mut rng = crate::verif_hooks::ChoiceRng::new();
                 let mut available_indices =
                     (0..available_inputs.len()).collect::<BTreeSet<usize>>();
                 // run random-improve by each asset type
@@ -642,7 +653,10 @@ impl TransactionBuilder {
         input_total: &mut Value,
         output_total: &mut Value,
         by: F,
+        #[cfg(not(feature = "verif-hooks"))]
         rng: &mut rand::rngs::ThreadRng,
+        #[cfg(feature = "verif-hooks")]
+        rng: &mut crate::verif_hooks::ChoiceRng,
         pure_ada: bool,
     ) -> Result<(), JsError>
     where
